@@ -253,3 +253,83 @@ def bkv_sortable(p, patterns=()):
         if out[-1] != len(out) - 1:
             return False
     return True
+
+
+def contains3(p, pat):
+    """does p contain the length-3 pattern pat?  O(n^2): for every middle position take the extremal admissible
+    left value and look for an admissible right value on the correct side of it."""
+    a, b, c = pat
+    n = len(p)
+    for j in range(1, n - 1):
+        v = p[j]
+        left = [x for x in p[:j] if (x < v) == (a < b)]
+        right = [z for z in p[j + 1:] if (z < v) == (c < b)]
+        if not left or not right:
+            continue
+        if a < c:
+            if min(left) < max(right):
+                return True
+        elif max(left) > min(right):
+            return True
+    return False
+
+
+def max_tree_height(p):
+    """height of the tree obtained by splitting a sequence at its maximum, recursively (= the recursion depth a
+    'split at the maximum' formulation of stack sorting needs); computed with an explicit stack"""
+    best, todo = 0, [(list(p), 1)]
+    while todo:
+        seq, d = todo.pop()
+        if not seq:
+            continue
+        best = max(best, d)
+        if len(seq) == 1:
+            continue
+        i = max(range(len(seq)), key=seq.__getitem__)
+        todo.append((seq[:i], d + 1))
+        todo.append((seq[i + 1:], d + 1))
+    return best
+
+
+def recursion_depth_needed(label, p):
+    """nesting depth of the recursive formulations used for the sorting devices, by family of entry point"""
+    p = tuple(p)
+    if label in ("bubble_sort", "bubble_sortable"):
+        return sum(1 for i, v in enumerate(p) if all(x < v for x in p[:i])) if len(p) < 200 else len({max(p[: i + 1]) for i in range(0, len(p), 1)})
+    if label in ("quick_sort", "quick_sortable"):
+        # split at the last strong fixed point, recursively on both sides
+        best, todo = 0, [(list(p), 1)]
+        while todo:
+            seq, d = todo.pop()
+            if not seq:
+                continue
+            best = max(best, d)
+            sfp = _sfp_fast(seq)
+            if sfp:
+                i = sfp[-1]
+                todo.append((seq[:i], d + 1))
+                todo.append((seq[i + 1:], d + 1))
+        return best
+    passes = {"stack_sort": 1, "stack_sortable": 1, "west_2_stack_sortable": 2, "west_3_stack_sortable": 3, "count_stack_sorts": 10 ** 9}.get(label, 0)
+    best, cur = 0, p
+    while passes > 0:
+        best = max(best, max_tree_height(cur))
+        if best >= 900 or is_id(cur):
+            break
+        cur = stack_pass(cur)
+        passes -= 1
+    return best
+
+
+def _sfp_fast(seq):
+    n = len(seq)
+    pre, suf = [None] * n, [None] * n
+    m = -1
+    for i, v in enumerate(seq):
+        pre[i] = m
+        m = max(m, v)
+    m = 10 ** 18
+    for i in range(n - 1, -1, -1):
+        suf[i] = m
+        m = min(m, seq[i])
+    return [i for i, v in enumerate(seq) if pre[i] < v < suf[i]]
